@@ -89,6 +89,44 @@ func p2Trees() []wh.Build {
 	return out
 }
 
+// p4Trees: three names {a,b,e}, per-name state in {absent, file P, symlink->a,
+// dir{}, dir{c:P}, dir{c/d:P}} — one content only, so that every file of the new
+// build whose content exists in the old build is a rename/duplicate of it, and
+// kind changes, renames into/out of/through directories that change kind and
+// chains over three names meet (216 trees).
+func p4Trees() []wh.Build {
+	names := []string{"a", "b", "e"}
+	const nStates = 6
+	entry := func(name string, st int) []wh.Entry {
+		switch st {
+		case 1:
+			return []wh.Entry{wh.F(name, contP)}
+		case 2:
+			return []wh.Entry{wh.L(name, "a")}
+		case 3:
+			return []wh.Entry{wh.D(name)}
+		case 4:
+			return []wh.Entry{wh.F(name+"/c", contP)}
+		case 5:
+			return []wh.Entry{wh.F(name+"/c/d", contP)}
+		}
+		return nil
+	}
+	var out []wh.Build
+	for sa := 0; sa < nStates; sa++ {
+		for sb := 0; sb < nStates; sb++ {
+			for se := 0; se < nStates; se++ {
+				var b wh.Build
+				b = append(b, entry(names[0], sa)...)
+				b = append(b, entry(names[1], sb)...)
+				b = append(b, entry(names[2], se)...)
+				out = append(out, b)
+			}
+		}
+	}
+	return out
+}
+
 // f1Contents / f1Builds: the block-level family F1 of C01 (same definition).
 func f1Contents() []string {
 	syms := []string{"", "A", "B", "A.A", "A.B", "B.A", "B.B"}
